@@ -154,6 +154,11 @@ def utf8_in_context(seqs):
         out.append(b'"' + q + b'"')
         out.append(b'"\\' + q + b'"')
         out.append(b"a." + q + b".b")
+        # at the very start (followed by a dot / an opening quote) and at the very end
+        out.append(q + b".a")
+        out.append(q + b'"a"')
+        out.append(b"a." + q)
+        out.append(b'"a"' + q)
     return out
 
 
@@ -203,7 +208,9 @@ def domain_strings(tier, rng):
 
 def octets():
     vals = list(range(0, 301)) + [1000, 2559, 2560, 99999]
-    strs = [str(v).encode() for v in vals] + [b"00", b"01", b"001", b"0001", b"000", b"0255", b"0256", b""]
+    # values that wrap to something <= 255 in 32- or 64-bit arithmetic, and very long digit strings
+    vals += [2**31 - 1, 2**31, 2**31 + 5, 3000000000, 2**32 - 1, 2**32, 2**32 + 1, 2**32 + 255, 2**32 + 256, 10**10, 2**63, 2**64, 2**64 + 1, 2**64 + 200, 10**30]
+    strs = [str(v).encode() for v in vals] + [b"00", b"01", b"001", b"0001", b"000", b"0255", b"0256", b"", b"0" * 18 + b"1", b"0" * 40 + b"255", b"0" * 40 + b"256"]
     return strs
 
 
@@ -258,7 +265,8 @@ def literal_domains(tier, rng):
     addrs4 = [b"1.2.3.4", b"0.1.2.3", b"0.0.0.0", b"255.255.255.255", b"256.1.1.1", b"1.2.3", b"1.2.3.4.", b"1.2.3.4.5", b"01.002.3.4", b"0001.2.3.4", b"1..2.3", b""]
     addrs6 = [b"1:2:3:4:5:6:7:8", b"::1", b"::", b"1::", b"1:2", b"1:2:3:4:5:6:7:", b"::ffff:1.2.3.4", b"1:2:3:4:5:6:1.2.3.4", b"1:2:1.2.3.4",
               b"2001:db8::1:1:1:1:1", b"1:2:3:4:5:6:7::", b"::2:3:4:5:6:7:8", b"1::3:4:5:6:7:8", b"abcd:ef01:2345:6789:abcd:ef01:2345:6789",
-              b"1:2:3:4:5:6:7:8:9", b"12345::", b"g::", b":::", b"1:::2", b"1::2::3", b"::0.1.2.3", b"1:2:3:4:5:6:7:1.2.3.4"]
+              b"1:2:3:4:5:6:7:8:9", b"12345::", b"g::", b":::", b"1:::2", b"1::2::3", b"::0.1.2.3", b"1:2:3:4:5:6:7:1.2.3.4",
+              b"::ffff:10.10.10.4294967297", b"::10.10.10.3000000000", b"1:2:3:4:5:6:10.4294967306.1.1", b"::ffff:10.10.10.18446744073709551617"]
     tags = [b"", b"IPv6:", b"ipv6:", b"IPV6:", b"IPv4:", b"IPv6", b"x:", b"foo:", b"IPv6::", b"IPv6: ", b":"]
     trailers = [b"", b"x", b"]", b" ", b":", b".com", b"]x"]
     for tag in tags:
@@ -376,6 +384,18 @@ def tld_labels(table, tier, rng):
 E_ALPHA = [b"a", b".", b"@", b"[", b"]", b'"', b"\\", b" ", b"1", b":", b"\x01", b"\x80"]
 
 
+def long_host(n, tld=b"com", ch=b"a"):
+    """a valid host name of exactly n octets (labels of at most 63 letters) ending in .<tld>"""
+    rest = n - len(tld) - 1
+    labs = []
+    while rest > 63:
+        k = min(63, rest - 2)            # leave room for a dot and at least one letter
+        labs.append(ch * k)
+        rest -= k + 1
+    labs.append(ch * max(rest, 1))
+    return b".".join(labs) + b"." + tld
+
+
 def email_strings(tier, rng):
     out = list(words(E_ALPHA, 4 if tier == "quick" else 5, 0))
     locs = [b"a", b"a.b", b'"a b"', b'"a@b"', b"a..b", b".a", b'"a', b"a b", b"\xc3\xa9", b'"\\\xc3\xa9"', b"a\x01", b"\xff", b"a" * 64, b"a" * 65, b"", b'"a"b', b'"a".b', b"#a"]
@@ -398,6 +418,11 @@ def email_strings(tier, rng):
             l = e * n + b"a" * r
             out += [l + b"@b.com", l + "@почта.рф".encode(), b'"' + l[:-2] + b'"@b.com']
         out.append(e * 64 + b"@b.com")
+    # both halves long at once: every limit is per half, there is no limit on the sum
+    for ll in (1, 10, 32, 63, 64, 65):
+        for dl in (150, 190, 191, 192, 193, 200, 245, 246, 247, 252, 253, 254, 255, 256):
+            out.append(b"a" * ll + b"@" + long_host(dl))
+        out.append(b'"' + b"a" * (ll - 2) + b'"@' + long_host(253) if ll > 2 else b"a@" + long_host(253))
     for _ in range(500 if tier == "quick" else 10000):
         l = random_local(rng, True, 3)
         d = rng.choice(doms + [b"sub." + x for x in doms[:8]])
